@@ -418,6 +418,12 @@ fn c08_case(ctx: &Ctx, rep: &mut Report, rng: &mut Rng, version: Version, bufsiz
             Session::create_over(version, bufsize, old).map_err(|e| ("create | ok | err".to_string(), format!("{e}")))?
         }
     };
+    // a quarter of the histories run on a store that grants reads and writes only in part
+    // (legal for any Read / Write): the zero fill must not depend on whole-buffer transfers
+    if rng.chance(1, 4) {
+        sess.shared.set_perturb(Some(crate::backend::Perturb { rng: Rng::new(rng.next_u64()), short_pct: 40, intr_pct: 0 }));
+        rep.count("histories_on_a_short_io_store");
+    }
     let mut former: Vec<(String, Vec<u8>)> = Vec::new();
     let n_ops = if ctx.quick() { rng.range(10, 60) } else { rng.range(20, 200) };
     let sizes: &[u64] = &[0, 1, 30, 63, 64, 65, 100, 128, 200, 511, 512, 513, 600, 1000, 2048, 4000, 4031, 4032, 4095, 4096, 4097, 4159, 4160, 5000, 8192, 8193, 9000];
@@ -748,6 +754,26 @@ fn c07_case(ctx: &Ctx, rep: &mut Report, rng: &mut Rng, version: Version, bufsiz
             run_step(&mut sess, Step::HOpen { slot: 7, path: p, how: OpenHow::CreateNew }, done, rep)?;
             run_step(&mut sess, Step::HWriteAll { slot: 7, len }, done, rep)?;
             run_step(&mut sess, Step::HClose { slot: 7 }, done, rep)?;
+        }
+    }
+    // a third of the histories go on from the same file as another writer might have left
+    // it: some nodes of the sibling trees red (a legal colouring), reopened from the bytes
+    if rng.chance(1, 3) {
+        let mut bytes = sess.shared.bytes();
+        let painted = crate::synth::repaint_red(&mut bytes, rng);
+        if painted > 0 {
+            let mode = if rng.chance(1, 2) { Mode::Strict } else { Mode::Permissive };
+            let model = sess.model.clone();
+            match Session::open_bytes(bytes, mode, bufsize, model) {
+                Ok(s2) => {
+                    sess = s2;
+                    rep.count("start.repainted_red_nodes");
+                    rep.add("red_nodes_painted", painted as u64);
+                    // marks the witness: the image is regenerated from the case on replay
+                    done.push(Step::Api(Op::Walk));
+                }
+                Err(e) => return Err(("reopen | a legal recolouring of the sibling trees is rejected".to_string(), format!("{painted} nodes painted red without a red-red edge, tops black; open ({mode:?}) says: {e}"))),
+            }
         }
     }
     let hcfg = HCfg { max_len: 20000, extreme_seeks: false, set_len_pct: 6, raw_rw: true, cap_hint: eff_buf(bufsize) };
